@@ -87,6 +87,26 @@ def regen():
     return rc == 0, out
 
 
+def lean_imports(mods):
+    """transitive closure of `import H3.…` lines starting from the given module names"""
+    seen = set()
+    todo = list(mods)
+    while todo:
+        m = todo.pop()
+        if m in seen:
+            continue
+        seen.add(m)
+        path = os.path.join(LEAN, *m.split(".")) + ".lean"
+        try:
+            src = open(path).read()
+        except OSError:
+            continue
+        for im in re.findall(r"^import\s+(H3(?:\.\w+)+)", src, re.M):
+            if im not in seen:
+                todo.append(im)
+    return seen
+
+
 # ------------------------------------------------------------------ Lean side
 
 def lake_build(targets):
@@ -492,7 +512,22 @@ def run_check(prop, tier, seed):
     ok, log = regen()
     checker_cmds.append("python3 tools/extract.py /repo lean/H3/Gen")
     if not ok:
-        broken.append("translator: " + log.strip().split("\n")[-1][:300])
+        # a refusal concerns this property only if the generated file is among the (transitive) imports of
+        # its theorem modules or of its driver; another property's table is that property's obligation
+        deps = lean_imports(list(prop.modules) + ["H3.Drv." + prop.id] + list(getattr(prop, "drv_modules", [])))
+        for ln in log.strip().split("\n"):
+            m = re.match(r"^extract: (\w+): \[([^\]]*)\] (.*)$", ln)
+            if not m:
+                if ln.startswith("extract:") or "Traceback" in ln or "Error" in ln:
+                    broken.append("translator: " + ln[:300])
+                continue
+            gen = m.group(2)
+            mod = "H3.Gen." + gen[:-5] if gen.endswith(".lean") else None
+            if mod is None or mod in deps:
+                broken.append("translator: extract: %s: %s" % (m.group(1), m.group(3)[:300]))
+            else:
+                notes.append("translator refused `%s` (%s); that file is not imported by this property's modules or driver, "
+                             "so it is not an obligation of this property: %s" % (m.group(1), gen, m.group(3)[:160]))
 
     ok_drv, log = lake_build(["h3drv"])
     checker_cmds.append("lake build h3drv")
